@@ -185,6 +185,25 @@ Constructs added for the Python representation (`Representation.repr_float` / `r
   `str.join`, which first makes a list of it); the profile asserts that.  With this entry the element of a comprehension
   may raise: `[f(y) for y in l]` is `List.mapM` (elements evaluated left to right, the first exception ends it).
 
+Two constructs added for `Activation.assert_is_not_vector` / `Threshold.Comparator.operator` (profiles `blockact.py`):
+
+* `if (x := e) > 1:` - an `if` whose test evaluates an assignment expression *first* (the `x := e` is reached from the test
+  through left operands only: `Compare.left`, `BinOp.left`, the first value of `and` / `or`, the operand of `not` / `-`)
+  is `x = e` followed by the `if` with `x` in its place (nothing of the test is evaluated before `e`, and whatever reads
+  `x` later in the test reads the new value in Python too);
+* a translation-time constant that is a *dictionary* with string keys (a class-level table such as
+  `Threshold.Comparator.__operator__`) is emitted as the literal list of its items in insertion order,
+  `List (String × T)`; a value is a literal as above or one of the Python objects the profile names in `const_objects`
+  (`(python expression, lean term, lean type)`: the value must be that very object - `is`); all values must have one type.
+  What `d[k]` / `k in d` mean on such a list is an external of the profile as for any other dictionary.
+
+Two more for `Engine.infer_type` / `Variable.highest_membership` (profiles `blockact.py`; primitive in `Base/PyAll.lean`):
+
+* `all(e for v in l)` / `any(e for v in l)` (one generator, no condition, `l` a pure list): `List.all` / `List.any` of
+  the truth value of `e` when `e` cannot raise; otherwise `Py.allM` / `Py.anyM`, which evaluate the elements in order and
+  stop at the first false (true) one as Python does - an element behind it is not evaluated and cannot raise;
+* `with contextlib.suppress(C): <statements>` is `try: <statements> except C: pass` (the forms of `try` above).
+
 Anything outside the subset raises `Untranslatable` - the tie is then reported as broken (never silently skipped).
 """
 from __future__ import annotations
@@ -521,7 +540,31 @@ class Fn:
             return E("[]", "List _")
         if isinstance(v, (set, frozenset, list, tuple)) and all(isinstance(x, str) for x in v):
             return E("[" + ", ".join(lean_str(x) for x in sorted(v) if True) + "]", "List String")
+        if isinstance(v, dict) and v and all(isinstance(x, str) for x in v):
+            # a table with string keys: the list of its items in insertion order
+            items = [(key, self.const_object(x)) for key, x in v.items()]
+            tys = {x.ty for _, x in items}
+            if len(tys) != 1:
+                raise Untranslatable(f"dictionary constant with values of types {sorted(tys)}")
+            ty = tys.pop()
+            return E("[" + ", ".join(f"({lean_str(key)}, {x.term})" for key, x in items) + "]", f"List (String × {paren(ty)})")
         raise Untranslatable(f"constant of type {type(v).__name__}")
+
+    def const_object(self, v):
+        """a value inside a constant table: a literal, or one of the objects named by `const_objects` of the profile"""
+        if v is None or isinstance(v, (bool, int, float, str)):
+            return self.lit(v)
+        for expr, term, ty in self.p.get("const_objects", []):
+            try:
+                obj = eval(expr, dict(self.glob))  # noqa: S307  (profile text, evaluated in the module's namespace)
+            except Exception:  # noqa: BLE001
+                continue
+            if obj is v:
+                desc = (expr, term, ty)
+                if desc not in self.used_ext:
+                    self.used_ext.append(desc)
+                return E(term, ty)
+        raise Untranslatable(f"constant object {v!r} is not named by `const_objects`")
 
     # ---------------------------------------------------------------- expressions
     def var(self, name):
@@ -826,6 +869,30 @@ class Fn:
                 return self.bind1(self.ce(node.args[0]), lambda x: f"({x}).length", "Nat")
             if isinstance(f, ast.Name) and f.id == "bool" and len(node.args) == 1 and not node.keywords:
                 return self.truthy(self.ce(node.args[0]))
+            if (isinstance(f, ast.Name) and f.id in ("all", "any") and len(node.args) == 1 and not node.keywords
+                    and isinstance(node.args[0], ast.GeneratorExp)):
+                gen = node.args[0]
+                g = gen.generators[0]
+                if len(gen.generators) != 1 or g.ifs or g.is_async or not isinstance(g.target, ast.Name):
+                    raise Untranslatable(f"generator shape: {ast.unparse(node)}")
+                it = self.iterator(g.iter)
+                v = g.target.id
+                if v in LEAN_RESERVED:
+                    for n in ast.walk(gen.elt):
+                        if isinstance(n, ast.Name) and n.id == v:
+                            n.id = mangle(v)
+                    v = mangle(v)
+                if v in self.locals or v in self.ptypes or not it.ty.startswith("List ") or not it.pure:
+                    raise Untranslatable(f"generator variable / iterable: {ast.unparse(node)}")
+                self.ptypes[v] = elem_type(it.ty)
+                try:
+                    elt = self.truthy(self.ce(gen.elt))
+                finally:
+                    del self.ptypes[v]
+                fn = f"(fun ({v} : {elem_type(it.ty)}) => {elt.term})"
+                if elt.pure:
+                    return E(f"(List.{f.id} {paren(it.term)} {fn})", "Bool")
+                return E(f"(Py.{f.id}M {fn} {paren(it.term)})", "Bool", False)
             if isinstance(f, ast.Attribute) and f.attr == "pop" and not node.args:
                 base = self.ce(f.value)
                 raise Untranslatable("pop() as an expression must be the whole right-hand side of an assignment or an argument of append")
@@ -1263,12 +1330,10 @@ class Fn:
             tgt = s.test.target.id
             return self.cs([ast.Assign(targets=[ast.Name(id=tgt, ctx=ast.Store())], value=s.test.value),
                             ast.If(test=ast.Name(id=tgt, ctx=ast.Load()), body=s.body, orelse=s.orelse)] + list(rest), k, loopk, brk)
-        if (isinstance(s, ast.If) and isinstance(s.test, ast.Compare) and isinstance(s.test.left, ast.NamedExpr)
-                and isinstance(s.test.left.target, ast.Name)):
-            # `if (x := e) < c:` is `x = e; if x < c:` (the left operand of a comparison is evaluated first)
-            tgt = s.test.left.target.id
-            test = ast.Compare(left=ast.Name(id=tgt, ctx=ast.Load()), ops=s.test.ops, comparators=s.test.comparators)
-            return self.cs([ast.Assign(targets=[ast.Name(id=tgt, ctx=ast.Store())], value=s.test.left.value),
+        if isinstance(s, ast.If) and leading_walrus(s.test) is not None:
+            # `if (x := e) > 1:` - the assignment expression is the first thing the test evaluates: `x = e; if x > 1:`
+            w, test = leading_walrus(s.test)
+            return self.cs([ast.Assign(targets=[ast.Name(id=w.target.id, ctx=ast.Store())], value=w.value),
                             ast.If(test=test, body=s.body, orelse=s.orelse)] + list(rest), k, loopk, brk)
         if isinstance(s, ast.If):
             c = self.truthy(self.ce(s.test))
@@ -1331,6 +1396,12 @@ class Fn:
                 and any(match_pattern(ast.parse(p, mode="eval").body, s.items[0].context_expr, {}) for p in self.p.get("plain_with", []))):
             # a context manager without effect on values / exceptions: the block is its body
             return self.cs(list(s.body) + list(rest), k, loopk, brk)
+        if (isinstance(s, ast.With) and len(s.items) == 1 and s.items[0].optional_vars is None
+                and match_pattern(ast.parse("contextlib.suppress(_0)", mode="eval").body, s.items[0].context_expr, {})):
+            # `with contextlib.suppress(C): body` is `try: body except C: pass`
+            cls = s.items[0].context_expr.args[0]
+            tr = ast.Try(body=s.body, handlers=[ast.ExceptHandler(type=cls, name=None, body=[ast.Pass()])], orelse=[], finalbody=[])
+            return self.cs([tr] + list(rest), k, loopk, brk)
         if isinstance(s, ast.With):
             pat = ast.parse("np.nditer(_0, op_flags=[['readwrite']])", mode="eval").body
             binds = {}
@@ -1754,6 +1825,34 @@ def is_yield_try(s):
     """`try: yield` with a `finally` block and nothing else"""
     return (len(s.body) == 1 and isinstance(s.body[0], ast.Expr) and isinstance(s.body[0].value, ast.Yield)
             and s.body[0].value.value is None and not s.handlers and not s.orelse and bool(s.finalbody))
+
+
+def leading_walrus(test):
+    """(the `x := e` node, the test with `x` in its place) when the test of an `if` evaluates an assignment expression
+    before anything else - it is reached through left operands only -, else None"""
+    import copy
+    test = copy.deepcopy(test)
+    holder, field, index, node = None, None, None, test
+    while True:
+        if isinstance(node, ast.NamedExpr):
+            if holder is None or not isinstance(node.target, ast.Name):
+                return None                   # the whole test is `x := e`: the older rule above
+            name = ast.Name(id=node.target.id, ctx=ast.Load())
+            if index is None:
+                setattr(holder, field, name)
+            else:
+                getattr(holder, field)[index] = name
+            return node, test
+        if isinstance(node, ast.Compare):
+            holder, field, index, node = node, "left", None, node.left
+        elif isinstance(node, ast.BinOp):
+            holder, field, index, node = node, "left", None, node.left
+        elif isinstance(node, ast.BoolOp):
+            holder, field, index, node = node, "values", 0, node.values[0]
+        elif isinstance(node, ast.UnaryOp):
+            holder, field, index, node = node, "operand", None, node.operand
+        else:
+            return None
 
 
 def diverts(stmts):
